@@ -58,42 +58,42 @@ var (
 	C_CBytes   = fakec.CBytes
 	C_free     = fakec.Free
 
-	C_luaL_setuncatchablerror  = fakec.LuaL_setuncatchablerror
-	C_luaL_hasuncatchablerror  = fakec.LuaL_hasuncatchablerror
-	C_luaL_setsyserror         = fakec.LuaL_setsyserror
-	C_luaL_hassyserror         = fakec.LuaL_hassyserror
-	C_luaL_set_hardforkversion = fakec.LuaL_set_hardforkversion
-	C_luaL_hardforkversion     = fakec.LuaL_hardforkversion
-	C_luaL_set_service         = fakec.LuaL_set_service
-	C_vm_is_hardfork           = fakec.Vm_is_hardfork
-	C_vm_instcount             = fakec.Vm_instcount
-	C_vm_setinstcount          = fakec.Vm_setinstcount
-	C_lua_gasget               = fakec.Lua_gasget
-	C_lua_gasset               = fakec.Lua_gasset
-	C_vm_set_timeout_hook      = fakec.Vm_set_timeout_hook
-	C_vm_set_count_hook        = fakec.Vm_set_count_hook
+	C_luaL_setuncatchablerror   = fakec.LuaL_setuncatchablerror
+	C_luaL_hasuncatchablerror   = fakec.LuaL_hasuncatchablerror
+	C_luaL_setsyserror          = fakec.LuaL_setsyserror
+	C_luaL_hassyserror          = fakec.LuaL_hassyserror
+	C_luaL_set_hardforkversion  = fakec.LuaL_set_hardforkversion
+	C_luaL_hardforkversion      = fakec.LuaL_hardforkversion
+	C_luaL_set_service          = fakec.LuaL_set_service
+	C_vm_is_hardfork            = fakec.Vm_is_hardfork
+	C_vm_instcount              = fakec.Vm_instcount
+	C_vm_setinstcount           = fakec.Vm_setinstcount
+	C_lua_gasget                = fakec.Lua_gasget
+	C_lua_gasset                = fakec.Lua_gasset
+	C_vm_set_timeout_hook       = fakec.Vm_set_timeout_hook
+	C_vm_set_count_hook         = fakec.Vm_set_count_hook
 	C_vm_set_timeout_count_hook = fakec.Vm_set_timeout_count_hook
-	C_vm_loadbuff              = fakec.Vm_loadbuff
-	C_vm_loadcall              = fakec.Vm_loadcall
-	C_vm_autoload              = fakec.Vm_autoload
-	C_vm_remove_constructor    = fakec.Vm_remove_constructor
-	C_vm_get_abi_function      = fakec.Vm_get_abi_function
-	C_vm_copy_service          = fakec.Vm_copy_service
-	C_vm_copy_result           = fakec.Vm_copy_result
-	C_vm_get_json_ret          = fakec.Vm_get_json_ret
-	C_vm_pcall                 = fakec.Vm_pcall
-	C_lua_pushlstring          = fakec.Lua_pushlstring
-	C_lua_pushstring           = fakec.Lua_pushstring
-	C_lua_pushinteger          = fakec.Lua_pushinteger
-	C_lua_pushnumber           = fakec.Lua_pushnumber
-	C_lua_pushboolean          = fakec.Lua_pushboolean
-	C_lua_pushnil              = fakec.Lua_pushnil
-	C_lua_createtable          = fakec.Lua_createtable
-	C_lua_gettop               = fakec.Lua_gettop
-	C_lua_settop               = fakec.Lua_settop
-	C_lua_rawseti              = fakec.Lua_rawseti
-	C_lua_rawset               = fakec.Lua_rawset
-	C_lua_set_bignum           = fakec.Lua_set_bignum
+	C_vm_loadbuff               = fakec.Vm_loadbuff
+	C_vm_loadcall               = fakec.Vm_loadcall
+	C_vm_autoload               = fakec.Vm_autoload
+	C_vm_remove_constructor     = fakec.Vm_remove_constructor
+	C_vm_get_abi_function       = fakec.Vm_get_abi_function
+	C_vm_copy_service           = fakec.Vm_copy_service
+	C_vm_copy_result            = fakec.Vm_copy_result
+	C_vm_get_json_ret           = fakec.Vm_get_json_ret
+	C_vm_pcall                  = fakec.Vm_pcall
+	C_lua_pushlstring           = fakec.Lua_pushlstring
+	C_lua_pushstring            = fakec.Lua_pushstring
+	C_lua_pushinteger           = fakec.Lua_pushinteger
+	C_lua_pushnumber            = fakec.Lua_pushnumber
+	C_lua_pushboolean           = fakec.Lua_pushboolean
+	C_lua_pushnil               = fakec.Lua_pushnil
+	C_lua_createtable           = fakec.Lua_createtable
+	C_lua_gettop                = fakec.Lua_gettop
+	C_lua_settop                = fakec.Lua_settop
+	C_lua_rawseti               = fakec.Lua_rawseti
+	C_lua_rawset                = fakec.Lua_rawset
+	C_lua_set_bignum            = fakec.Lua_set_bignum
 )
 
 // ---- cmd/aergoluac/luac (cgo) ----------------------------------------------
@@ -102,7 +102,7 @@ type fakeLuac struct{}
 
 var luac fakeLuac
 
-func (fakeLuac) NewLState() *fakec.LState   { return fakec.NewLState(0) }
+func (fakeLuac) NewLState() *fakec.LState    { return fakec.NewLState(0) }
 func (fakeLuac) CloseLState(L *fakec.LState) { L.Closed = true }
 func (fakeLuac) Compile(L *fakec.LState, code string) (util.LuaCode, error) {
 	return fakec.Compile(L, code)
@@ -113,7 +113,7 @@ func (fakeLuac) Compile(L *fakec.LState, code string) (util.LuaCode, error) {
 type LState = C_struct_lua_State
 
 func StartLStateFactory(numLStates, numClosers, numCloseLimit int) {}
-func GetLState() *LState                                         { return fakec.NewLState(C_int(currentForkVersion)) }
+func GetLState() *LState                                           { return fakec.NewLState(C_int(currentForkVersion)) }
 func FreeLState(s *LState) {
 	if s != nil {
 		s.Closed = true
